@@ -95,3 +95,12 @@ PROPS["C24"] = dict(
          "or silent return sits between initialize_start and initialize_finish. Exhaustive over all 38 arms.",
     note="Decides the dispatch/wrapper code only; behaviour of the lsp-server crate on stdio and panics inside handlers "
          "(C25) are outside. Trusted: rustc coroutine MIR (pre-transform), emmyfacts, Option/Result variant feasibility filter.")
+
+PROPS["C27"] = dict(
+    module="c27", func="run", level="other", crates=["emmylua_ls"],
+    technique="write-set + call-graph reachability to find document-text mutators; dispatch-coroutine MIR (inline await vs tokio::spawn)",
+    text="Decides the ordering-domain clause: every notification handler that can mutate the per-document text "
+         "state is awaited inline on the single message loop, so their effects are applied in message order; "
+         "a handler of that set dispatched through tokio::spawn is reported.",
+    note="Interleavings inside one handler and with reload tasks are not decided (C28/C29). Trusted: rustc coroutine MIR, "
+         "emmyfacts, call-graph over-approximation.")
